@@ -10,3 +10,5 @@ import (
 func verifObjectsStore(d *RepoDir) (objects.Store, bool) { return nil, false }
 
 func verifRefStore(d *RepoDir) (ref.Store, bool) { return nil, false }
+
+func verifSQLDriver() (string, bool) { return "", false }
